@@ -45,7 +45,12 @@ type Params struct {
 	Acme              bool     `json:"acme,omitempty"`
 	AcmeTrackTLSAnn   bool     `json:"acmeTrackTLSAnn,omitempty"`
 	NotLeader         bool     `json:"notLeader,omitempty"`
+	// ExtraAnnPrefixes: --annotations-prefix lists two more prefixes after the main one
+	ExtraAnnPrefixes bool `json:"extraAnnPrefixes,omitempty"`
 }
+
+// ExtraAnnPrefixes are the secondary annotation prefixes, in precedence order.
+var ExtraAnnPrefixes = []string{"ingress.kubernetes.io", "haproxy.org"}
 
 // RecLogger records log lines.
 type RecLogger struct {
@@ -208,8 +213,12 @@ func New(p Params) (*Sim, error) {
 	if sortBy == "" {
 		sortBy = "endpoint"
 	}
+	annPrefix := []string{strings.TrimSuffix(world.AnnPrefix, "/")}
+	if p.ExtraAnnPrefixes {
+		annPrefix = append(annPrefix, ExtraAnnPrefixes...)
+	}
 	cfg := &config.Config{
-		AnnPrefix:                []string{strings.TrimSuffix(world.AnnPrefix, "/")},
+		AnnPrefix:                annPrefix,
 		BackendShards:            p.Shards,
 		ConfigMapName:            world.GlobalCM,
 		TCPConfigMapName:         world.TCPCM,
